@@ -221,6 +221,9 @@ func (e *Engine) lookup(instr *ssa.Lookup, x, idx value) value {
 		checkHashable(k)
 	}
 	if m != nil {
+		if e.lockMon != nil {
+			e.lockMon.accessObj(e, m, false)
+		}
 		if en := m.find(e, idx); en != nil {
 			v, found = en.v, true
 		}
@@ -932,6 +935,9 @@ func (e *Engine) callBuiltin(caller *frame, callpos token.Pos, fn *ssa.Builtin, 
 			if e.frozen != nil {
 				e.checkFrozenObj(m)
 			}
+			if e.lockMon != nil {
+				e.lockMon.accessObj(e, m, true)
+			}
 			if k, ok := args[1].(iface); ok {
 				checkHashable(k)
 			}
@@ -984,6 +990,9 @@ func (e *Engine) callBuiltin(caller *frame, callpos token.Pos, fn *ssa.Builtin, 
 		case *omap:
 			if x == nil {
 				return 0
+			}
+			if e.lockMon != nil {
+				e.lockMon.accessObj(e, x, false)
 			}
 			return x.len()
 		case *channel:
@@ -1060,6 +1069,9 @@ func (e *Engine) rangeIter(x value, t types.Type) iter {
 			return &omapIter{}
 		}
 		e.noteNondet("map-iteration")
+		if e.lockMon != nil {
+			e.lockMon.accessObj(e, x, false)
+		}
 		return &omapIter{m: x, snap: x.live()}
 	case string, symstr:
 		return &stringIter{b: strBytes(x), e: e}
